@@ -7,7 +7,7 @@ import tempfile
 
 import numpy as np
 
-from vmon import biv, fingerprint as fpr, interpose, mv, uni
+from vmon import vines, biv, fingerprint as fpr, interpose, mv, uni
 from vmon.core import exc_detail, exc_mech, rng_for
 from vmon.refs import arch, samplers
 
@@ -336,7 +336,7 @@ def _vine(spec, ctx):
     with interpose.poison_empty(111.0, tree_mod, vine_mod):
         ok, exc = ctx.call(model.fit, df.copy(), truncated=spec['truncated'])
     if not ok:
-        if isinstance(exc, ValueError):
+        if vines.is_refusal(exc):
             ctx.note('vine fit refused with ValueError')
             return
         ctx.violation('roundtrip.fit', 'C14:vine-fit-' + exc_mech(exc), dict(exc_detail(exc), **where))
